@@ -7,6 +7,7 @@ import (
 	"verifharness/chipsim"
 	"verifharness/ecref"
 	"verifharness/fw"
+	"verifharness/issuer"
 	"verifharness/perso"
 	"verifharness/symref"
 )
@@ -200,5 +201,18 @@ func runC08(c *fw.Ctx) {
 	c.Cases(n, func(i int) string { return fmt.Sprintf("read|i=%d", i) }, func(i int, k *fw.K) {
 		pp := randPlan(k.RNG, c.Thorough() || i%10 == 0)
 		c08Run(k, pp, uint64(i)+1)
+	})
+	// tiny per-read sizes (1..8 bytes): legal settings that need small files to stay below
+	// the reader's chunk limit - a BAC-only chip with an EC-signed security object
+	nt := c.Pick(16, 64)
+	c.Cases(nt, func(i int) string { return fmt.Sprintf("tiny-max-read|i=%d", i) }, func(i int, k *fw.K) {
+		r := k.RNG
+		var pp persoPlan
+		pp.o = perso.Opts{Access: perso.BACOnly, Digest: issuer.SHA256, SODBySKI: true}
+		pp.o.PKI.CSCAKey, pp.o.PKI.DSKey = issuer.NewECKey(r, ecref.ByName("P-256")), issuer.NewECKey(r, ecref.ByName("P-256"))
+		pp.o.PKI.CertHash = issuer.SHA256
+		pp.maxLe = 1 + i%8
+		pp.extended = i%2 == 0
+		c08Run(k, pp, uint64(i)+7000)
 	})
 }
